@@ -265,7 +265,7 @@ Definition continue_auth (w : world) (n : nat) (now : Z) (r : cbreq) : prog out 
       | AFail e =>
           bind (get_client w (a_client s)) (fun oc =>
             match oc with
-            | None => Ret (OErr EInvalidRequest)
+            | None => Do (ADel (a_id s)) (fun _ => Ret (OErr EInvalidRequest))   (* fix: the session goes with its client *)
             | Some c => Ret (render_aerr (w_cfg w) c e)
             end)
       end)
